@@ -64,7 +64,8 @@ func genDefault(t *rapid.T, typ string, o Opts) string {
 	if o.SimpleDefaults {
 		return rapid.SampledFrom([]string{"'x'", "''", "'hello world'"}).Draw(t, "sdef")
 	}
-	return rapid.SampledFrom([]string{"'x'", "''", "'it''s'", "'a;b'", "'-- c'", `'say "hi"'`, "'x y'", "(lower('A'))", "'1'",
+	return rapid.SampledFrom([]string{"'x'", "''", "'it''s'", "'a;b'", "'-- c'", `'say "hi"'`, "'x y'", "(lower('A'))", "'1'", "'007'", "'1.50'", // texts that read like numbers but are not the way the number is written
+		
 		// SQLite also takes a double-quoted text for a string literal when no column has that name
 		`"it's"`, `"plain text"`, `"say ""hi"""`}).Draw(t, "sdef")
 }
